@@ -71,6 +71,27 @@ def drop_dead_local_defs(tree):
                         lst.remove(s)
 
 
+def split_or_callee(tree):
+    """(a or b)(args)  as a statement  ->  if a: a(args) else: b(args)     (a, b plain names / attribute chains)"""
+    for node in ast.walk(tree):
+        for f in ("body", "orelse", "finalbody"):
+            v = getattr(node, f, None)
+            if not (isinstance(v, list) and v and isinstance(v[0], ast.stmt)):
+                continue
+            out = []
+            for s in v:
+                c = s.value if isinstance(s, ast.Expr) else None
+                if isinstance(c, ast.Call) and isinstance(c.func, ast.BoolOp) and isinstance(c.func.op, ast.Or) and len(c.func.values) == 2 and all(_simple_arg(x) for x in c.func.values):
+                    a, b = c.func.values
+                    one = ast.Expr(value=ast.Call(func=copy.deepcopy(a), args=c.args, keywords=c.keywords))
+                    two = ast.Expr(value=ast.Call(func=b, args=copy.deepcopy(c.args), keywords=copy.deepcopy(c.keywords)))
+                    new = ast.If(test=a, body=[one], orelse=[two])
+                    out.append(ast.fix_missing_locations(ast.copy_location(new, s)))
+                else:
+                    out.append(s)
+            setattr(node, f, out)
+
+
 def split_chained_assign(tree):
     """t1 = n = E   ->   n = E; t1 = n      (n a plain name that the other targets do not mention)"""
     for node in ast.walk(tree):
@@ -2012,6 +2033,8 @@ def normalize_package(trees, known=None, passes=None):
             known = load_known()
         inl = Inliner(trees, known)
         stats["inline"] = inl.run()
+        for mn, t in trees.items():
+            split_or_callee(t)
         if on(6) and stats["inline"].get("inlined"):
             # unfolding leaves aliases (`match = self._match`) and search loops (`v = X; break`) behind that hide further helpers:
             # bring what was unfolded into canonical form and unfold once more
